@@ -2,7 +2,6 @@ package c10
 
 import (
 	"fmt"
-	"regexp"
 	"strings"
 
 	"github.com/lindb/lindb/sql"
@@ -36,7 +35,6 @@ type cond struct {
 	Vals []string // in operands
 	// how the atom is spelled
 	NeqAlt bool // "<>" instead of "!="
-	Quote  byte // ' or "
 
 	// binary
 	And  bool
@@ -48,36 +46,18 @@ type cond struct {
 
 func (c *cond) isAtom() bool { return c.L == nil && c.Inner == nil }
 
-// quoteLit renders a literal with the given quote; ok=false if the literal cannot be written
-// with that quote (the lexer has no escape inside quoted identifiers).
-func quoteLit(s string, q byte) (string, bool) {
-	if strings.IndexByte(s, q) >= 0 || strings.ContainsAny(s, "\r\n") {
-		return "", false
-	}
-	return string(q) + s + string(q), true
-}
-
-// expressible reports whether the literal can be written in SQL at all.
+// Literals: the lexer knows '...' (no escape inside); "..." lexes as a JSON string token, which
+// the ident rule does not accept, and `...` keeps its back-ticks. So a literal is expressible iff it
+// contains neither a single quote nor a line break.
 func expressible(s string) bool {
-	if strings.ContainsAny(s, "\r\n") {
-		return false
-	}
-	return !(strings.Contains(s, "'") && strings.Contains(s, `"`))
+	return !strings.ContainsAny(s, "'\r\n")
 }
 
-func lit(s string, prefer byte) string {
-	if r, ok := quoteLit(s, prefer); ok {
-		return r
-	}
-	other := byte('\'')
-	if prefer == '\'' {
-		other = '"'
-	}
-	r, ok := quoteLit(s, other)
-	if !ok {
+func lit(s string) string {
+	if !expressible(s) {
 		panic(fmt.Sprintf("harness: literal %q not expressible", s))
 	}
-	return r
+	return "'" + s + "'"
 }
 
 // sqlText renders the condition. A binary child of a binary node is parenthesised unless
@@ -93,33 +73,29 @@ func (c *cond) sqlText() string {
 		}
 		return c.L.sqlText() + op + c.R.sqlText()
 	}
-	q := c.Quote
-	if q == 0 {
-		q = '\''
-	}
 	switch c.Op {
 	case opEq:
 		if c.Neg {
 			if c.NeqAlt {
-				return c.Key + " <> " + lit(c.Val, q)
+				return c.Key + " <> " + lit(c.Val)
 			}
-			return c.Key + " != " + lit(c.Val, q)
+			return c.Key + " != " + lit(c.Val)
 		}
-		return c.Key + " = " + lit(c.Val, q)
+		return c.Key + " = " + lit(c.Val)
 	case opLike:
 		if c.Neg {
-			return c.Key + " not like " + lit(c.Val, q)
+			return c.Key + " not like " + lit(c.Val)
 		}
-		return c.Key + " like " + lit(c.Val, q)
+		return c.Key + " like " + lit(c.Val)
 	case opRegex:
 		if c.Neg {
-			return c.Key + " !~ " + lit(c.Val, q)
+			return c.Key + " !~ " + lit(c.Val)
 		}
-		return c.Key + " =~ " + lit(c.Val, q)
+		return c.Key + " =~ " + lit(c.Val)
 	default:
 		var parts []string
 		for _, v := range c.Vals {
-			parts = append(parts, lit(v, q))
+			parts = append(parts, lit(v))
 		}
 		if c.Neg {
 			return c.Key + " not in (" + strings.Join(parts, ",") + ")"
@@ -266,7 +242,11 @@ func atomMatch(c *cond, v string) bool {
 	case opLike:
 		return likeMatch(c.Val, v)
 	case opRegex:
-		return regexp.MustCompile(c.Val).MatchString(v) // search semantics, as rp.Match in the memory path
+		rp, err := compileRx(c.Val)
+		if err != nil {
+			panic("harness: invalid regular expression generated: " + c.Val)
+		}
+		return rp.MatchString(v) // Go regexp search semantics (what the memory path does with rp.Match)
 	default:
 		for _, x := range c.Vals {
 			if x == v {
